@@ -42,6 +42,8 @@ func (o kop) String() string {
 		return fmt.Sprintf("AddWithCount(%v,%v)!", o.V, o.W)
 	case "badmerge":
 		return fmt.Sprintf("MergeWith(mismatching mapping, otherkind=%v)!", o.Omit)
+	case "vanish":
+		return "Reweight(2^-600) x3"
 	case "merge", "decmerge":
 		return fmt.Sprintf("%s(pos=%s neg=%s exact=%v %v)", o.Kind, o.Other.cfg.pos, o.Other.cfg.neg, o.Other.cfg.exact, o.Other.ops)
 	case "reweight":
@@ -430,6 +432,22 @@ func (u *skUT) apply(op kop) string {
 		u.k.clear()
 		u.inex = 0
 		u.lossy = false
+	case "vanish":
+		// every weight is scaled down until it underflows to exactly 0: from then on the sketch holds nothing a float
+		// can represent and must behave as an empty one (plain variant only: the exact statistics keep the extremes of
+		// values whose weight, mathematically, is still positive)
+		if u.cfg.exact {
+			return ""
+		}
+		for i := 0; i < 3; i++ {
+			if err := u.s.Reweight(0x1p-600); err != nil {
+				return fmt.Sprintf("Reweight(2^-600) refused: %v", err)
+			}
+		}
+		u.k.clear()
+		u.inex = 0
+		u.lossy = false
+		u.cl.label("weights-underflowed-to-zero")
 	case "reweight":
 		if err := u.s.Reweight(op.Factor.F); err != nil {
 			return fmt.Sprintf("Reweight(%v) refused: %v", op.Factor.F, err)
